@@ -26,6 +26,12 @@ add("C15", "vp_sample (two build configurations)",
     "Trusted: i128 reference arithmetic, catch_unwind to observe panics. Wider types are sampled with structure.",
     "DESIGN.md §4 C15")
 
+add("C03", "vp_sample",
+    "proptest + bounded-exhaustive enumeration against a reference built from the exact conversion references and native companion arithmetic",
+    "Sample level: add_amp / mul_amp / to_signed_sample / to_float_sample for all 14 formats on boundary-biased and random operands (valid by construction), all values of the 8/16-bit formats against the identity operands (offset 0, offsets landing on MIN/MAX, gains 0, 1, 0.5). Frame level: every Frame method for every width 1..=32 (u8, i16, U48, f32), widths 1/2/5/32 and the bare-sample frame for all 14 formats; closures record their call order and arguments, channel contents are pairwise distinct, from_samples is driven with every short and long iterator length.",
+    "Trusted: the conversion references of C01/C02, native + and * of the host in the companion type. The 14 x 32 product of array instantiations is covered as 4 x 32 + 14 x 4 (array frames are one generic impl).",
+    "DESIGN.md §4 C03")
+
 PENDING_REASON = "check not yet built in this round (design in DESIGN.md §4); nothing is claimed for it until its check is registered"
 
 def main():
